@@ -202,7 +202,7 @@ type lfObl struct {
 }
 
 type lfEngine struct {
-	bitFacts bool // record, per path, the source bits fixed by single-bit tests (lfState.bitFacts)
+	bitFacts    bool // record, per path, the source bits fixed by single-bit tests (lfState.bitFacts)
 	c           *Ctx
 	symNames    []string
 	nextID      int
